@@ -156,7 +156,9 @@ def run(ck):
                 sb.add(src, 'new', text, mtime=inst)
         cmp_ = rng.choice(['>', '<'])
         field = '' if kind == 'header' and rng.randrange(2) else kind
-        conf = sb.write_conf(('maildir "%s" {\n\tmatch %sdate %s %s %d %s move "%s"\n}\n' % (src, 'attachment ' if inatt else '', field, cmp_, k, unit, dst)).encode())
+        # the number is decimal however it is spelt (leading zeros included)
+        kspell = rng.choice(['%d', '%d', '0%d', '00%d', '000000%d']) % k
+        conf = sb.write_conf(('maildir "%s" {\n\tmatch %sdate %s %s %s %s move "%s"\n}\n' % (src, 'attachment ' if inatt else '', field, cmp_, kspell, unit, dst)).encode())
         env = {'VFIO_TIME': str(now)}
         if tz is not None:
             env['TZ'] = tz
